@@ -25,7 +25,9 @@ type saveCase struct {
 	Early *int   `json:"earlier_discarded_save_after,omitempty"` // a Save taken (and thrown away) at this earlier position
 }
 
-func (sc saveCase) cfg() searchCfg { return searchCfg{N: sc.N, M: sc.M, Pred: sc.Pred, Place: sc.Place} }
+func (sc saveCase) cfg() searchCfg {
+	return searchCfg{N: sc.N, M: sc.M, Pred: sc.Pred, Place: sc.Place}
+}
 
 func loadIter(sc saveCase, data []byte) *search.GraphIterator {
 	p := predByName(sc.Pred)
